@@ -71,6 +71,50 @@ def insertion_obligation(rep):
         rep.inconc(tag, f"template outside the translator's subset: {e}")
 
 
+def executor_scenarios(rep):
+    """Whole-executor plumbing for job scripts (real process_metadata + executor + template context): merging of repeated
+    blocks, empty-script blocks that take part in dependencies, and the three error classes.  Scenarios, not solver claims."""
+    from ..strk import jinja_smt as js
+
+    def blk(name, lines, deps):
+        return {"metadata_type": "add_job_script", "name": name, "script": list(lines), "depends_on": list(deps)}
+
+    def run(mds):
+        try:
+            cap = js.capture("atlas", mds)
+            return ("ok", cap["contexts"]["ATestRun_eljob.py"].get("job_option_additions"))
+        except Exception as e:  # noqa: BLE001
+            inner = getattr(e, "exc", e)
+            return ("raised", type(inner).__name__ + ": " + str(inner)[:120])
+    L = lambda n: [f"{n}_line1", f"{n}_line2"]          # noqa: E731
+    cases = [
+        # same name, same script, different dependencies: merged with the union of the dependencies
+        ("merge-union", [blk("calib", L("calib"), ["sys"]), blk("sys", L("sys"), []), blk("pile", L("pile"), []), blk("calib", L("calib"), ["pile"]), blk("sel", L("sel"), ["calib"])],
+         lambda r: r[0] == "ok" and sorted(r[1]) == sorted(L("calib") + L("sys") + L("pile") + L("sel")) and r[1].index("calib_line1") > max(r[1].index("sys_line2"), r[1].index("pile_line2"))
+         and r[1].index("sel_line1") > r[1].index("calib_line2")),
+        ("identical-twice", [blk("a", L("a"), []), blk("a", L("a"), [])], lambda r: r == ("ok", L("a"))),
+        # an empty-script block is still a node of the dependency graph
+        ("empty-grouping", [blk("grp", [], ["sys", "pile"]), blk("sys", L("sys"), []), blk("pile", L("pile"), []), blk("sel", L("sel"), ["grp"])],
+         lambda r: r[0] == "ok" and sorted(r[1]) == sorted(L("sys") + L("pile") + L("sel")) and r[1].index("sel_line1") > max(r[1].index("sys_line2"), r[1].index("pile_line2"))),
+        ("empty-missing-dep", [blk("grp", [], ["never_sent"]), blk("sel", L("sel"), [])], lambda r: r[0] == "raised" and "ValueError" in r[1]),
+        ("empty-cycle", [blk("g1", [], ["g2"]), blk("g2", [], ["g1"])], lambda r: r[0] == "raised" and "ValueError" in r[1]),
+        ("conflict", [blk("a", ["x = 1"], []), blk("a", ["x = 2"], [])], lambda r: r[0] == "raised" and "ValueError" in r[1]),
+        ("self-dependency", [blk("a", L("a"), ["a"])], lambda r: r[0] == "raised" and "ValueError" in r[1]),
+        ("chain-reversed-input", [blk("c", L("c"), ["b"]), blk("b", L("b"), ["a"]), blk("a", L("a"), [])], lambda r: r == ("ok", L("a") + L("b") + L("c"))),
+    ]
+    for name, mds, ok in cases:
+        rep.obligations += 1
+        r = run(mds)
+        if ok(r):
+            rep.discharged += 1
+        else:
+            d = chcheck.REPLAYS / "C15" / f"executor_{name}"
+            d.mkdir(parents=True, exist_ok=True)
+            import json
+            (d / "finding.json").write_text(json.dumps({"scenario": name, "metadata": mds, "outcome": r}, indent=1, default=str))
+            rep.violation(f"atlas executor, job scripts, scenario {name}: outcome {r}", d)
+
+
 def main():
     a = parse_args("C15")
     mods = [("h_c15", 60, None), ("h_c15_2", 120, None)]
@@ -85,6 +129,7 @@ def main():
                     "dependencies, Kahn's algorithm): ValueError exactly on conflict/missing/cycle, otherwise each distinct block once, contiguous, "
                     "in order, after its dependencies. B=2 quick, B=3 thorough; space partitioned into conditions with <=3 symbolic integers")
     insertion_obligation(rep)
+    executor_scenarios(rep)
     cov["bounds"] = {"blocks": 2 if a.tier == "quick" else 3, "deps_per_block": 2}
     sys.exit(rep.finish(cov, assumptions + ["more than 3 blocks and random sampling beyond the bound are not done (outside the claim)"]))
 
